@@ -106,6 +106,11 @@ def ncyc_cmp(ctx, val, model):
     return msg
 
 
+import _precalls as _PRE  # noqa: E402
+_PRE_SHARE_SMALL = 0.03     # per call site, exhaustive part (~30 000 short series)
+_PRE_SHARE = 0.4            # per call site, random / corpus part
+
+
 def all_sequences(levels, maxlen):
     for n in range(2, maxlen + 1):
         for t in itertools.product(levels, repeat=n):
@@ -131,9 +136,14 @@ def run(ctx):
         nonconst = len(set(v)) > 1
         ctx.count_case(tuple(v), len(v) >= 3 and nonconst,
                        sample={'fn': 'get_peak_array_indices', 'values': list(v)} if ctx.evaluations % 20011 == 0 else None)
+        # round 7: before a share of the calls, public functions of the module are called on the same content with non-default options,
+        # positionally / by keyword, results ignored (_precalls.py); `pre` lists them for the failing input
+        pre = {}
+        share = _PRE_SHARE_SMALL if len(v) <= 8 else _PRE_SHARE
+        _PRE.before(ctx, _PRE.pc_entries, arr, pre, share=share)
         res = call_impl(pc.get_peak_array_indices, arr)
         ctx.corr('get_peak_array_indices', f"peaks|{w_rats(v)}", res,
-                 lambda outs, val: cmp_exact([int(x) for x in val], p_ints(outs[0])), inputs={'values': list(v)})
+                 lambda outs, val: cmp_exact([int(x) for x in val], p_ints(outs[0])), inputs={'values': list(v), **pre})
         # the documented selection value 'all' given explicitly (keyword and positional) is the default
         for how, r_all in (('keyword', call_impl(pc.get_peak_array_indices, arr, ptype='all')), ('positional', call_impl(pc.get_peak_array_indices, arr, 'all'))):
             ctx.oracle("C11 ptype='all' given explicitly (%s) == the default selection" % how,
@@ -144,9 +154,12 @@ def run(ctx):
         P = res[1]
         vv = [fr(x) for x in v]
         bad = spec_peaks(vv, P)
-        ctx.oracle('C11.a-c ' + (bad or 'peaks shape/segments/completeness'), bad is None, inputs={'values': list(v)},
+        ctx.oracle('C11.a-c ' + (bad or 'peaks shape/segments/completeness'), bad is None, inputs={'values': list(v), **pre},
                    detail={'reported': P})
+        pre2 = {}
+        _PRE.before(ctx, _PRE.pc_entries, arr, pre2, share=share)
         rmax = call_impl(pc.get_peak_array_indices, arr, ptype='max')
+        _PRE.before(ctx, _PRE.pc_entries, arr, pre2, share=share)
         rmin = call_impl(pc.get_peak_array_indices, arr, ptype='min')
         ctx.corr('get_peak_array_indices[max]', f"peaks_max|{w_rats(v)}", rmax,
                  lambda outs, val: cmp_exact([int(x) for x in val], p_ints(outs[0])), inputs={'values': list(v), 'ptype': 'max'})
@@ -154,17 +167,19 @@ def run(ctx):
                  lambda outs, val: cmp_exact([int(x) for x in val], p_ints(outs[0])), inputs={'values': list(v), 'ptype': 'min'})
         if rmax[0] == 'ok' and rmin[0] == 'ok' and bad is None:
             b2 = spec_ptype(vv, P, rmax[1], rmin[1])
-            ctx.oracle('C11.d ' + (b2 or 'ptype selections'), b2 is None, inputs={'values': list(v)},
+            ctx.oracle('C11.d ' + (b2 or 'ptype selections'), b2 is None, inputs={'values': list(v), **pre2},
                        detail={'all': P, 'max': rmax[1], 'min': rmin[1]},
                        facts={'flat_start': bool(v[0] == v[1])})
         if full:
             for origin in (True, False):
+                pre3 = {}
+                _PRE.before(ctx, _PRE.pc_entries, arr, pre3, share=share)
                 rn = call_impl(pc.get_n_cyc_array, arr, opt='all', start='origin' if origin else 'peak')
                 ctx.corr('get_n_cyc_array', f"ncyc|{w_bool(origin)}|{w_rats(v)}", rn,
-                         lambda outs, val: ncyc_cmp(ctx, val, p_rats(outs[0])), inputs={'values': list(v), 'origin': origin})
+                         lambda outs, val: ncyc_cmp(ctx, val, p_rats(outs[0])), inputs={'values': list(v), 'origin': origin, **pre3})
                 if rn[0] == 'ok' and bad is None:
                     b3 = spec_ncyc(vv, P, rn[1], origin)
-                    ctx.oracle('C11.e ' + (b3 or 'cycle counter'), b3 is None, inputs={'values': list(v), 'origin': origin})
+                    ctx.oracle('C11.e ' + (b3 or 'cycle counter'), b3 is None, inputs={'values': list(v), 'origin': origin, **pre3})
                 elif rn[0] != 'ok' and bad is None and len(set(v)) > 1:
                     ctx.oracle("C11.e the cycle counter is returned for every non-constant series (start='%s')" % ('origin' if origin else 'peak'), False,
                                inputs={'values': list(v), 'origin': origin}, detail=rn)
@@ -372,6 +387,7 @@ def _x2_wrappers(ctx, cur):
         # object-level wrapper on objects with a history
         dt = gen.any_dt(rng)
         asig = ctx.aged(eqsig.AccSignal, v, dt) if it % 4 == 0 else _light_history(ctx, eqsig.AccSignal, v, dt)
+        _PRE.before(ctx, _PRE.pc_entries, v, inputs, share=_PRE_SHARE)      # round 7: the array-level functions asked first, with options, on the same content
         rw = call_impl(pc.get_peak_indices, asig)
         ctx.oracle('C11 get_peak_indices(asig) == get_peak_array_indices(asig.values) == the turning points of the record', rw[0] == 'ok' and
                    _same(rw[1], ref) and _same(rw[1], np_spec_peaks(v)), {**inputs, 'dt': dt}, detail={'wrapper': rw[1], 'array-level': ref})
@@ -393,7 +409,9 @@ def _x2_wrappers(ctx, cur):
                        r1[0] == r2[0] and (r1[0] != 'ok' or _same(r1[1], r2[1])), {'values': cleaned.tolist()}, detail={'alias': r2[1], 'main': r1[1]})
         # ---- options of the cycle counter: opt='switched' numbers the switched peaks; unknown option values are rejected
         for start in ('origin', 'peak'):
+            _PRE.before(ctx, _PRE.pc_entries, v, inputs, share=_PRE_SHARE)
             rs = call_impl(pc.get_n_cyc_array, v, opt='switched', start=start)
+            _PRE.before(ctx, _PRE.pc_entries, v, inputs, share=_PRE_SHARE)
             S = [int(s) for s in pc.get_switched_peak_array_indices(v)]
             if S[0] != 0:
                 S = [0] + S
